@@ -1,6 +1,677 @@
-//! C03 (stub)
+//! C03 — multiplication and squaring return the exact product for all widths.
+//!
+//! Oracle: p = a * b (num-bigint). Split / widening forms return every limb of p (lo = p mod
+//! 2^(64 L) in the width of the left operand, hi = p >> 64 L in the width of the right operand);
+//! wrapping forms return p mod 2^BITS of the left operand; checked forms are some exactly when
+//! p < 2^BITS of the left operand; saturating forms return MAX exactly then; the `*` / `*=`
+//! operators panic exactly then (all four reference forms of `Uint * Uint` and `Limb * Limb` go
+//! through `checked_mul(..).expect(..)`); `Wrapping` wraps, `Checked` is none exactly on overflow
+//! and none is sticky. Squaring = the same with b = a.
+//!
+//! BoxedUint: `mul` / `square` / `WideningMul` are documented to return nlimbs(a) + nlimbs(b) limbs
+//! (exact product); `wrapping_mul` wraps to the width of `self`; `CheckedMul` is some exactly when
+//! the product fits the width of `self`. The boxed `*` / `*=` operators carry no documentation and
+//! are not uniform in the crate (`&a * &b` is the checked form, the by-value forms and `*=` widen):
+//! for them the case only requires what the statement says under either reading — a returned
+//! value is the exact product (never a wrapped one), and a panic is only allowed when the product
+//! does not fit the width of the left operand.
+
 use super::prelude::*;
+use crypto_bigint::{Checked, CheckedMul, Concat, ConcatMixed, WideningMul, Wrapping, WrappingMul};
+
+fn wmask(limbs: usize) -> BigUint {
+    mask(64 * limbs as u32)
+}
+
+// ---------------------------------------------------------------- corpus
+
+/// One half of a Karatsuba operand (`l` limbs): sometimes itself built from ordered halves (the
+/// next recursion level), otherwise an edge value or a structured random value.
+fn half_base(c: &mut Ctx, l: usize) -> BigUint {
+    if l >= 8 && l % 2 == 0 && c.below(3) == 0 {
+        let r = c.below(10);
+        return halves(c, l, r);
+    }
+    match c.below(8) {
+        0 => BigUint::zero(),
+        1 => wmask(l),
+        2 => BigUint::one(),
+        3 => pow2(c.below(64 * l) as u32),
+        4 => wmask(l) - 1u32,
+        _ => c.rnd(l),
+    }
+}
+
+/// An `l`-limb value (l even) x = x0 + x1 * 2^(32 l) whose halves are in a chosen relation:
+/// 0: x0 < x1, 1: x0 > x1, 2: x0 = x1, 3: x0 = 0, 4: x1 = 0, 5: x0 all ones, 6: x1 all ones,
+/// 7: all ones, 8: x1 = x0 + 1, 9: x0 = x1 + 1.
+fn halves(c: &mut Ctx, l: usize, rel: usize) -> BigUint {
+    let h = l / 2;
+    let m = wmask(h);
+    let (u, v) = (half_base(c, h), half_base(c, h));
+    let (mut lo, mut hi) = if u <= v { (u, v) } else { (v, u) };
+    if lo == hi {
+        if hi == m {
+            lo -= 1u32;
+        } else {
+            hi += 1u32;
+        }
+    }
+    // now lo < hi, hence hi >= 1
+    let (x0, x1) = match rel {
+        0 => (lo, hi),
+        1 => (hi, lo),
+        2 => (hi.clone(), hi),
+        3 => (BigUint::zero(), hi),
+        4 => (hi, BigUint::zero()),
+        5 => (m, lo),
+        6 => (lo, m),
+        7 => (m.clone(), m),
+        8 => (&hi - 1u32, hi),
+        _ => (hi.clone(), &hi - 1u32),
+    };
+    x0 + (x1 << (64 * h))
+}
+
+/// A `limbs`-limb value whose low `size` limbs (size even, >= 2) are a [`halves`] pattern and whose
+/// remaining ("trailing") limbs are zero, all ones or random.
+fn kara_value(c: &mut Ctx, limbs: usize, size: usize, rel: usize) -> BigUint {
+    let low = halves(c, size, rel);
+    if limbs == size {
+        return low;
+    }
+    let t = limbs - size;
+    let trail = match c.below(4) {
+        0 => BigUint::zero(),
+        1 => wmask(t),
+        2 => BigUint::one(),
+        _ => c.rnd(t),
+    };
+    low + (trail << (64 * size))
+}
+
+/// Pairs for the Karatsuba paths: every relation of the halves of x against every relation of
+/// the halves of y (this contains x0 < x1 / x0 > x1 / x0 = x1 against y1 < y0 / y1 > y0 / y1 = y0,
+/// i.e. every sign combination of (x0 - x1)(y1 - y0), zero halves, all-ones halves), `reps` times.
+fn kara_pairs(c: &mut Ctx, l1: usize, l2: usize, reps: usize) -> Vec<(BigUint, BigUint)> {
+    let size = l1.min(l2) & !1;
+    let mut v = Vec::new();
+    if size < 2 {
+        return v;
+    }
+    for _ in 0..reps {
+        for rx in 0..10 {
+            for ry in 0..10 {
+                v.push((kara_value(c, l1, size, rx), kara_value(c, l2, size, ry)));
+            }
+        }
+    }
+    v
+}
+
+/// Multiplication corpus: generic pair corpus + Karatsuba half patterns + single bits, all-ones
+/// prefixes + pairs on the overflow boundary of the left width (a*b = 2^BITS, 2^BITS - 1 region:
+/// a = floor(MAX / b) and a + 1).
+fn mul_inputs(c: &mut Ctx, l1: usize, l2: usize) -> Vec<(BigUint, BigUint)> {
+    let mut v = c.inputs2(l1, l2);
+    let (b1, b2) = (64 * l1 as u32, 64 * l2 as u32);
+    let (m1, m2) = (wmask(l1), wmask(l2));
+    let reps = if l1.min(l2) >= 8 { (c.iters / 500).max(1) } else { 1 };
+    v.extend(kara_pairs(c, l1, l2, reps));
+    // single bits / all-ones prefixes; 2^i * 2^j around i + j = BITS of the left operand
+    for _ in 0..(32 + c.iters / 16) {
+        let i = c.below(b1 as usize) as u32;
+        let j = c.below(b2 as usize) as u32;
+        v.push((pow2(i), pow2(j)));
+        v.push((pow2(i), mask(j + 1)));
+        v.push((mask(i + 1), mask(j + 1)));
+        v.push((mask(i + 1), c.rnd(l2)));
+        if b1 >= i && b1 - i < b2 {
+            v.push((pow2(i), pow2(b1 - i)));
+            v.push((pow2(i), pow2(b1 - i) - 1u32));
+            v.push((mask(i + 1), pow2(b1 - i)));
+            if b1 - i >= 1 {
+                v.push((pow2(i), pow2(b1 - i - 1)));
+                v.push((mask(i + 1), pow2(b1 - i - 1)));
+            }
+        }
+    }
+    // exact overflow boundary: q = floor(MAX1 / b): q*b fits, (q+1)*b does not
+    for round in 0..(32 + c.iters / 16) {
+        let b = match round % 4 {
+            0 => BigUint::from(c.edgy_word()) & &m2,
+            1 => c.rnd(l2),
+            2 => pow2(c.below(b2 as usize) as u32) + 1u32,
+            _ => c.rnd(l2) >> c.below(b2 as usize),
+        } & &m2;
+        if b.is_zero() {
+            continue;
+        }
+        let q = &m1 / &b;
+        v.push((q.clone(), b.clone()));
+        if q < m1 {
+            v.push((&q + 1u32, b.clone()));
+        }
+        if !q.is_zero() {
+            v.push((&q - 1u32, b));
+        }
+    }
+    v
+}
+
+/// Squaring corpus: generic unary corpus + Karatsuba half patterns + single bits + the
+/// checked_square boundary floor(sqrt(MAX)) and neighbours.
+fn sq_inputs(c: &mut Ctx, l: usize) -> Vec<BigUint> {
+    let mut v = c.inputs1(l);
+    let bits = 64 * l as u32;
+    if l >= 2 {
+        let reps = if l >= 8 { (c.iters / 100).max(2) } else { 2 };
+        for _ in 0..reps {
+            for r in 0..10 {
+                v.push(kara_value(c, l, l & !1, r));
+            }
+        }
+    }
+    for k in 0..bits {
+        if k % 7 == 0 || k + 2 >= bits / 2 && k <= bits / 2 + 1 || k + 1 == bits {
+            v.push(pow2(k));
+            v.push(mask(k + 1));
+            v.push(pow2(k) + 1u32);
+        }
+    }
+    let r = isqrt(&wmask(l));
+    v.push(r.clone());
+    v.push(&r + 1u32);
+    v.push(&r - 1u32);
+    v
+}
+
+fn budget_div(l: usize) -> usize {
+    if l >= 128 {
+        8
+    } else if l >= 64 {
+        4
+    } else {
+        1
+    }
+}
+
+/// `check!` when the product fits, `must_panic!` when it does not.
+macro_rules! panics_iff_overflow {
+    ($c:expr, $fit:expr, $got:expr, $exp:expr; $($n:ident),*) => {
+        if $fit {
+            check!($c, $got, $exp; $($n),*);
+        } else {
+            must_panic!($c, $got; $($n),*);
+        }
+    };
+}
+
+// ---------------------------------------------------------------- Uint
+
+fn split_mul<const L: usize, const R: usize>(c: &mut Ctx) {
+    for (a, b) in c.scaled(budget_div(L.max(R)), |c| mul_inputs(c, L, R)) {
+        if c.done() {
+            return;
+        }
+        let (x, y) = (bu::<L>(&a), bu::<R>(&b));
+        let p = &a * &b;
+        let exp = (&p & wmask(L), &p >> (64 * L));
+        check!(c, call(|| x.split_mul(&y)).map(|(lo, hi)| (ub(&lo), ub(&hi))), exp; a, b);
+    }
+}
+
+fn wrapping_checked_saturating<const L: usize, const R: usize>(c: &mut Ctx) {
+    for (a, b) in c.scaled(budget_div(L.max(R)), |c| mul_inputs(c, L, R)) {
+        if c.done() {
+            return;
+        }
+        let (x, y) = (bu::<L>(&a), bu::<R>(&b));
+        let p = &a * &b;
+        let fit = fits(&p, 64 * L as u32);
+        let lo = &p & wmask(L);
+        check!(c, call(|| x.wrapping_mul(&y)).map(|r| ub(&r)), lo.clone(); a, b);
+        check!(c, call(|| x.saturating_mul(&y)).map(|r| ub(&r)), if fit { p.clone() } else { wmask(L) }; a, b);
+        let exp = if fit { Some(p.clone()) } else { None };
+        check!(c, call(|| opt(CheckedMul::checked_mul(&x, &y))).map(|r| r.map(|r| ub(&r))), exp; a, b);
+    }
+}
+
+fn wrapping_mul_trait<const L: usize>(c: &mut Ctx) {
+    for (a, b) in mul_inputs(c, L, L) {
+        if c.done() {
+            return;
+        }
+        let (x, y) = (bu::<L>(&a), bu::<L>(&b));
+        let lo = (&a * &b) & wmask(L);
+        check!(c, call(|| WrappingMul::wrapping_mul(&x, &y)).map(|r| ub(&r)), lo; a, b);
+    }
+}
+
+fn widening<const L: usize, const R: usize, const W: usize>(c: &mut Ctx)
+where
+    Uint<L>: ConcatMixed<Uint<R>, MixedOutput = Uint<W>>,
+{
+    for (a, b) in c.scaled(budget_div(L.max(R)), |c| mul_inputs(c, L, R)) {
+        if c.done() {
+            return;
+        }
+        let (x, y) = (bu::<L>(&a), bu::<R>(&b));
+        let p = &a * &b;
+        check!(c, call(|| x.widening_mul(&y)).map(|r| ub(&r)), p.clone(); a, b);
+        check!(c, call(|| WideningMul::widening_mul(&x, y)).map(|r| ub(&r)), p.clone(); a, b);
+        check!(c, call(|| WideningMul::widening_mul(&x, &y)).map(|r| ub(&r)), p; a, b);
+    }
+}
+
+fn operators<const L: usize, const R: usize>(c: &mut Ctx) {
+    for (a, b) in mul_inputs(c, L, R) {
+        if c.done() {
+            return;
+        }
+        let (x, y) = (bu::<L>(&a), bu::<R>(&b));
+        let p = &a * &b;
+        let fit = fits(&p, 64 * L as u32);
+        panics_iff_overflow!(c, fit, call(|| x * y).map(|r| ub(&r)), p.clone(); a, b);
+        panics_iff_overflow!(c, fit, call(|| x * &y).map(|r| ub(&r)), p.clone(); a, b);
+        panics_iff_overflow!(c, fit, call(|| &x * y).map(|r| ub(&r)), p.clone(); a, b);
+        panics_iff_overflow!(c, fit, call(|| &x * &y).map(|r| ub(&r)), p.clone(); a, b);
+        panics_iff_overflow!(c, fit, call(|| { let mut t = x; t *= y; t }).map(|r| ub(&r)), p.clone(); a, b);
+        panics_iff_overflow!(c, fit, call(|| { let mut t = x; t *= &y; t }).map(|r| ub(&r)), p.clone(); a, b);
+    }
+}
+
+fn wrapping_wrapper<const L: usize>(c: &mut Ctx) {
+    for (a, b) in mul_inputs(c, L, L) {
+        if c.done() {
+            return;
+        }
+        let (x, y) = (Wrapping(bu::<L>(&a)), Wrapping(bu::<L>(&b)));
+        let lo = (&a * &b) & wmask(L);
+        check!(c, call(|| x * y).map(|r| ub(&r.0)), lo.clone(); a, b);
+        check!(c, call(|| x * &y).map(|r| ub(&r.0)), lo.clone(); a, b);
+        check!(c, call(|| &x * y).map(|r| ub(&r.0)), lo.clone(); a, b);
+        check!(c, call(|| &x * &y).map(|r| ub(&r.0)), lo.clone(); a, b);
+        check!(c, call(|| { let mut t = x; t *= y; t }).map(|r| ub(&r.0)), lo.clone(); a, b);
+        check!(c, call(|| { let mut t = x; t *= &y; t }).map(|r| ub(&r.0)), lo; a, b);
+    }
+}
+
+fn checked_wrapper<const L: usize>(c: &mut Ctx) {
+    let ob = |r: Checked<Uint<L>>| opt(r.0).map(|r| ub(&r));
+    for (a, b) in mul_inputs(c, L, L) {
+        if c.done() {
+            return;
+        }
+        let (x, y) = (Checked::new(bu::<L>(&a)), Checked::new(bu::<L>(&b)));
+        let p = &a * &b;
+        let exp = if fits(&p, 64 * L as u32) { Some(p) } else { None };
+        check!(c, call(|| x * y).map(ob), exp.clone(); a, b);
+        check!(c, call(|| x * &y).map(ob), exp.clone(); a, b);
+        check!(c, call(|| &x * y).map(ob), exp.clone(); a, b);
+        check!(c, call(|| &x * &y).map(ob), exp.clone(); a, b);
+        check!(c, call(|| { let mut t = x; t *= y; t }).map(ob), exp.clone(); a, b);
+        check!(c, call(|| { let mut t = x; t *= &y; t }).map(ob), exp; a, b);
+        // none is sticky, whatever the other operand
+        let none = Checked(CtOption::new(bu::<L>(&a), Choice::from(0)));
+        let e: Option<BigUint> = None;
+        check!(c, call(|| none * y).map(ob), e.clone(); a, b);
+        check!(c, call(|| y * none).map(ob), e.clone(); a, b);
+        check!(c, call(|| { let mut t = none; t *= y; t }).map(ob), e.clone(); a, b);
+        check!(c, call(|| { let mut t = y; t *= &none; t }).map(ob), e; a, b);
+    }
+}
+
+fn square_forms<const L: usize>(c: &mut Ctx) {
+    for a in c.scaled(budget_div(L), |c| sq_inputs(c, L)) {
+        if c.done() {
+            return;
+        }
+        let x = bu::<L>(&a);
+        let p = &a * &a;
+        let fit = fits(&p, 64 * L as u32);
+        let lo = &p & wmask(L);
+        check!(c, call(|| x.square_wide()).map(|(lo, hi)| (ub(&lo), ub(&hi))), (lo.clone(), &p >> (64 * L)); a);
+        check!(c, call(|| x.wrapping_square()).map(|r| ub(&r)), lo; a);
+        check!(c, call(|| copt(x.checked_square())).map(|r| r.map(|r| ub(&r))), if fit { Some(p.clone()) } else { None }; a);
+        check!(c, call(|| x.saturating_square()).map(|r| ub(&r)), if fit { p } else { wmask(L) }; a);
+    }
+}
+
+fn square_concat<const L: usize, const W: usize>(c: &mut Ctx)
+where
+    Uint<L>: Concat<Output = Uint<W>> + ConcatMixed<Uint<L>, MixedOutput = Uint<W>>,
+{
+    for a in c.scaled(budget_div(L), |c| sq_inputs(c, L)) {
+        if c.done() {
+            return;
+        }
+        let x = bu::<L>(&a);
+        let p = &a * &a;
+        check!(c, call(|| x.square()).map(|r| ub(&r)), p.clone(); a);
+        check!(c, call(|| x.widening_square()).map(|r| ub(&r)), p; a);
+    }
+}
+
+/// "Squaring always equals multiplying the value by itself" on the crate's own routes (route
+/// equality; both sides are also checked against the oracle by the other cases).
+fn square_is_self_mul<const L: usize>(c: &mut Ctx) {
+    for a in c.scaled(budget_div(L), |c| sq_inputs(c, L)) {
+        if c.done() {
+            return;
+        }
+        let x = bu::<L>(&a);
+        let got = call(|| x.square_wide() == x.split_mul(&x));
+        check!(c, got, true; a);
+    }
+}
+
+// ---------------------------------------------------------------- BoxedUint
+
+/// exact value and limb count
+fn shape(r: &BoxedUint) -> (BigUint, usize) {
+    (xb(r), r.nlimbs())
+}
+
+/// For the undocumented boxed operators: a panic is accepted only when the product does not fit
+/// the width of the left operand; a returned value must be the exact product.
+fn lenient(got: Result<BigUint, String>, p: &BigUint, bits: u32) -> Result<BigUint, String> {
+    match got {
+        Err(_) if !fits(p, bits) => Ok(p.clone()),
+        other => other,
+    }
+}
+
+fn boxed_all_forms(c: &mut Ctx, a: &BigUint, b: &BigUint, nl: usize, rl: usize, operators: bool) {
+    let (a, b) = (a.clone(), b.clone());
+    let (x, y) = (bx(&a, nl), bx(&b, rl));
+    let p = &a * &b;
+    let bits = 64 * nl as u32;
+    let fit = fits(&p, bits);
+    check!(c, call(|| x.mul(&y)).map(|r| shape(&r)), (p.clone(), nl + rl); a, b, nl, rl);
+    check!(c, call(|| x.wrapping_mul(&y)).map(|r| shape(&r)), (&p & wmask(nl), nl); a, b, nl, rl);
+    let exp = if fit { Some((p.clone(), nl)) } else { None };
+    check!(c, call(|| opt(x.checked_mul(&y))).map(|r| r.map(|r| shape(&r))), exp; a, b, nl, rl);
+    if !operators {
+        return;
+    }
+    check!(c, call(|| WideningMul::widening_mul(&x, &y)).map(|r| shape(&r)), (p.clone(), nl + rl); a, b, nl, rl);
+    check!(c, call(|| WideningMul::widening_mul(&x, y.clone())).map(|r| shape(&r)), (p.clone(), nl + rl); a, b, nl, rl);
+    check!(c, call(|| WrappingMul::wrapping_mul(&x, &y)).map(|r| shape(&r)), (&p & wmask(nl), nl); a, b, nl, rl);
+    // `&a * &b` is `checked_mul(..).expect("attempted to multiply with overflow")`
+    panics_iff_overflow!(c, fit, call(|| &x * &y).map(|r| xb(&r)), p.clone(); a, b, nl, rl);
+    check!(c, lenient(call(|| x.clone() * y.clone()).map(|r| xb(&r)), &p, bits), p.clone(); a, b, nl, rl);
+    check!(c, lenient(call(|| x.clone() * &y).map(|r| xb(&r)), &p, bits), p.clone(); a, b, nl, rl);
+    check!(c, lenient(call(|| &x * y.clone()).map(|r| xb(&r)), &p, bits), p.clone(); a, b, nl, rl);
+    check!(c, lenient(call(|| { let mut t = x.clone(); t *= y.clone(); t }).map(|r| xb(&r)), &p, bits), p.clone(); a, b, nl, rl);
+    check!(c, lenient(call(|| { let mut t = x.clone(); t *= &y; t }).map(|r| xb(&r)), &p, bits), p.clone(); a, b, nl, rl);
+    // Wrapping<BoxedUint>: wraps to the width of the left operand
+    let (wx, wy) = (Wrapping(x.clone()), Wrapping(y.clone()));
+    let lo = &p & wmask(nl);
+    check!(c, call(|| &wx * &wy).map(|r| shape(&r.0)), (lo.clone(), nl); a, b, nl, rl);
+    check!(c, call(|| wx.clone() * &wy).map(|r| shape(&r.0)), (lo.clone(), nl); a, b, nl, rl);
+    check!(c, call(|| &wx * wy.clone()).map(|r| shape(&r.0)), (lo.clone(), nl); a, b, nl, rl);
+    check!(c, call(|| wx.clone() * wy.clone()).map(|r| shape(&r.0)), (lo.clone(), nl); a, b, nl, rl);
+    check!(c, call(|| { let mut t = wx.clone(); t *= wy.clone(); t }).map(|r| shape(&r.0)), (lo.clone(), nl); a, b, nl, rl);
+    check!(c, call(|| { let mut t = wx.clone(); t *= &wy; t }).map(|r| shape(&r.0)), (lo, nl); a, b, nl, rl);
+}
+
+fn boxed_small(c: &mut Ctx) {
+    for nl in 1..=4usize {
+        for rl in 1..=4usize {
+            for (a, b) in c.scaled(8, |c| mul_inputs(c, nl, rl)) {
+                if c.done() {
+                    return;
+                }
+                boxed_all_forms(c, &a, &b, nl, rl, true);
+            }
+        }
+    }
+}
+
+fn boxed_square_small(c: &mut Ctx) {
+    for nl in 1..=6usize {
+        for a in c.scaled(4, |c| sq_inputs(c, nl)) {
+            if c.done() {
+                return;
+            }
+            let x = bx(&a, nl);
+            check!(c, call(|| x.square()).map(|r| shape(&r)), (&a * &a, 2 * nl); a, nl);
+        }
+    }
+}
+
+/// Boxed multiplication over a list of (lhs limbs, rhs limbs) shapes: Karatsuba half patterns with
+/// zero / all-ones / random trailing limbs, random values, all ones, top bits, a product that fits.
+fn boxed_shapes(c: &mut Ctx, shapes: &[(usize, usize)], extra: &[(BigUint, BigUint, usize, usize)]) {
+    for (a, b, nl, rl) in extra {
+        boxed_all_forms(c, a, b, *nl, *rl, true);
+    }
+    let reps = (c.iters / 1000).max(1);
+    for &(nl, rl) in shapes {
+        let mut v = kara_pairs(c, nl, rl, reps);
+        for _ in 0..(c.iters / 100).max(4) {
+            v.push((c.rnd(nl), c.rnd(rl)));
+        }
+        v.push((wmask(nl), wmask(rl)));
+        v.push((wmask(nl), BigUint::one()));
+        v.push((BigUint::zero(), wmask(rl)));
+        v.push((pow2(64 * nl as u32 - 1), pow2(64 * rl as u32 - 1)));
+        // top limbs all ones, rest zero (long carry chains in the trailing-limb rows)
+        v.push((wmask(3.min(nl)) << (64 * (nl - 3.min(nl))), wmask(3.min(rl)) << (64 * (rl - 3.min(rl)))));
+        // small enough to fit the left width: exercises the some-branch of checked_mul
+        v.push((c.rnd(nl) >> (64 * nl / 2), c.rnd(rl) >> (64 * rl - 64 * nl.min(rl) / 2)));
+        for (i, (a, b)) in v.into_iter().enumerate() {
+            if c.done() {
+                return;
+            }
+            boxed_all_forms(c, &a, &b, nl, rl, i % 16 == 0);
+        }
+    }
+}
+
+/// Sizes around the boxed Karatsuba entry (min(len) >= 32), its reduction limit (24 limbs per
+/// half-product, odd overlaps are rounded down and handled as trailing limbs) and unequal lengths.
+/// The shapes "lhs odd >= 33 limbs, rhs longer" are in [`boxed_large_both_trailing`].
+fn boxed_large(c: &mut Ctx) {
+    let shapes = [
+        (5, 7), (8, 8), (12, 9), (16, 16), (17, 16), (24, 25), (31, 32), (32, 31), (32, 32), (32, 33), (33, 32), (33, 33),
+        (32, 40), (40, 33), (32, 64), (64, 32), (48, 49), (49, 49), (50, 50), (52, 52), (64, 63), (64, 64), (65, 64), (65, 65),
+        (64, 100), (96, 97), (100, 100), (101, 99), (128, 128), (140, 33), (140, 140),
+    ];
+    boxed_shapes(c, &shapes, &[]);
+}
+
+/// Left operand with an odd number (>= 33) of limbs and a longer right operand: the only shapes in
+/// which `karatsuba_mul_limbs` has trailing limbs on both sides with more than one trailing row on
+/// the right (xt = 1 limb, yt >= 2 limbs). First input: the smallest witness found for the lost
+/// carry in `adc_mul_limbs` (a = (2^192 - 1) * 2^1920 in 33 limbs, b = (2^192 - 1) * 2^1984 in 34 limbs).
+fn boxed_large_both_trailing(c: &mut Ctx) {
+    let w = (wmask(3) << (64 * 30), wmask(3) << (64 * 31), 33, 34);
+    boxed_shapes(c, &[(33, 34), (33, 40), (35, 37), (63, 64), (49, 140), (139, 140)], &[w]);
+}
+
+/// Boxed squaring across its Karatsuba entry (>= 64 limbs; halves <= 48 limbs or odd are schoolbook).
+fn boxed_square_large(c: &mut Ctx) {
+    let sizes: [usize; 20] = [7, 16, 31, 32, 33, 47, 48, 49, 63, 64, 65, 96, 97, 98, 100, 104, 128, 130, 139, 140];
+    let reps = (c.iters / 400).max(1);
+    for nl in sizes {
+        let mut v = Vec::new();
+        for _ in 0..reps {
+            for r in 0..10 {
+                v.push(kara_value(c, nl, nl & !1, r));
+            }
+        }
+        for _ in 0..(c.iters / 100).max(4) {
+            v.push(c.rnd(nl));
+        }
+        v.push(wmask(nl));
+        v.push(pow2(64 * nl as u32 - 1));
+        v.push(pow2(32 * nl as u32));
+        v.push(BigUint::zero());
+        for a in v {
+            if c.done() {
+                return;
+            }
+            let x = bx(&a, nl);
+            check!(c, call(|| x.square()).map(|r| shape(&r)), (&a * &a, 2 * nl); a, nl);
+        }
+    }
+}
+
+// ---------------------------------------------------------------- Limb
+
+fn limb_words(c: &mut Ctx) -> Vec<u64> {
+    let mut w: Vec<u64> = crate::generate::ALPHA.to_vec();
+    w.extend([3, u32::MAX as u64, (1 << 32) + 1, (1 << 32) - 1, u64::MAX - 2]);
+    w.push(c.word());
+    w.push(c.word() | 1 << 63);
+    w
+}
+
+fn limb_mac(c: &mut Ctx) {
+    let w = limb_words(c);
+    let mut v = Vec::new();
+    for &a in &w {
+        for &b in &w {
+            for &m in &w {
+                for &k in &w {
+                    v.push((a, b, m, k));
+                }
+            }
+        }
+    }
+    for _ in 0..c.iters {
+        v.push((c.edgy_word(), c.edgy_word(), c.edgy_word(), c.edgy_word()));
+    }
+    for (a, b, m, k) in v {
+        if c.done() {
+            return;
+        }
+        let (ba, bb, bm, bk) = (BigUint::from(a), BigUint::from(b), BigUint::from(m), BigUint::from(k));
+        // a + b*m + carry <= 2^128 - 1: (lo, hi) are its two words
+        let t = &ba + &bb * &bm + &bk;
+        let exp = (&t & mask(64), &t >> 64);
+        check!(c, call(|| Limb(a).mac(Limb(b), Limb(m), Limb(k))).map(|(lo, hi)| (lb(lo), lb(hi))), exp; ba, bb, bm, bk);
+    }
+}
+
+fn limb_pairs(c: &mut Ctx) -> Vec<(u64, u64)> {
+    let w = limb_words(c);
+    let mut v = Vec::new();
+    for &a in &w {
+        for &b in &w {
+            v.push((a, b));
+        }
+    }
+    for _ in 0..c.iters {
+        let a = c.edgy_word();
+        v.push((a, c.edgy_word()));
+        if a != 0 {
+            // overflow boundary
+            v.push((a, u64::MAX / a));
+            v.push((a, (u64::MAX / a).wrapping_add(1)));
+        }
+        v.push((a >> 32, c.word() >> 32));
+        v.push((1 << c.below(64), 1 << c.below(64)));
+    }
+    v
+}
+
+fn limb_forms(c: &mut Ctx) {
+    for (a, b) in limb_pairs(c) {
+        if c.done() {
+            return;
+        }
+        let (x, y) = (Limb(a), Limb(b));
+        let (a, b) = (BigUint::from(a), BigUint::from(b));
+        let p = &a * &b;
+        let fit = fits(&p, 64);
+        let lo = &p & mask(64);
+        check!(c, call(|| x.wrapping_mul(y)).map(lb), lo.clone(); a, b);
+        check!(c, call(|| WrappingMul::wrapping_mul(&x, &y)).map(lb), lo.clone(); a, b);
+        check!(c, call(|| x.saturating_mul(y)).map(lb), if fit { p.clone() } else { mask(64) }; a, b);
+        let exp = if fit { Some(p.clone()) } else { None };
+        check!(c, call(|| opt(x.checked_mul(&y))).map(|r| r.map(lb)), exp.clone(); a, b);
+        panics_iff_overflow!(c, fit, call(|| x * y).map(lb), p.clone(); a, b);
+        panics_iff_overflow!(c, fit, call(|| x * &y).map(lb), p.clone(); a, b);
+        panics_iff_overflow!(c, fit, call(|| &x * y).map(lb), p.clone(); a, b);
+        panics_iff_overflow!(c, fit, call(|| &x * &y).map(lb), p.clone(); a, b);
+        let (wx, wy) = (Wrapping(x), Wrapping(y));
+        check!(c, call(|| wx * wy).map(|r| lb(r.0)), lo.clone(); a, b);
+        check!(c, call(|| wx * &wy).map(|r| lb(r.0)), lo.clone(); a, b);
+        check!(c, call(|| &wx * wy).map(|r| lb(r.0)), lo.clone(); a, b);
+        check!(c, call(|| &wx * &wy).map(|r| lb(r.0)), lo.clone(); a, b);
+        check!(c, call(|| { let mut t = wx; t *= wy; t }).map(|r| lb(r.0)), lo.clone(); a, b);
+        check!(c, call(|| { let mut t = wx; t *= &wy; t }).map(|r| lb(r.0)), lo; a, b);
+        let ob = |r: Checked<Limb>| opt(r.0).map(lb);
+        let (cx, cy) = (Checked::new(x), Checked::new(y));
+        check!(c, call(|| cx * cy).map(ob), exp.clone(); a, b);
+        check!(c, call(|| cx * &cy).map(ob), exp.clone(); a, b);
+        check!(c, call(|| &cx * cy).map(ob), exp.clone(); a, b);
+        check!(c, call(|| &cx * &cy).map(ob), exp.clone(); a, b);
+        check!(c, call(|| { let mut t = cx; t *= cy; t }).map(ob), exp.clone(); a, b);
+        check!(c, call(|| { let mut t = cx; t *= &cy; t }).map(ob), exp; a, b);
+        let none = Checked(CtOption::new(x, Choice::from(0)));
+        let e: Option<BigUint> = None;
+        check!(c, call(|| none * cy).map(ob), e.clone(); a, b);
+        check!(c, call(|| cy * none).map(ob), e; a, b);
+    }
+}
 
 pub fn cases() -> Vec<Case> {
-    Vec::new()
+    let mut v = Vec::new();
+    ucases2!(v, "split_mul", split_mul;
+        (1, 1), (2, 2), (3, 3), (4, 4), (5, 5), (6, 6), (7, 7), (8, 8), (9, 9), (10, 10), (11, 11), (12, 12), (16, 16), (32, 32), (64, 64), (128, 128),
+        (1, 2), (2, 1), (1, 3), (3, 1), (2, 3), (3, 2), (1, 4), (4, 1), (2, 4), (4, 2), (3, 4), (4, 3), (4, 16), (16, 4), (15, 16), (16, 15),
+        (16, 17), (17, 16), (16, 32), (32, 16), (32, 33), (31, 32), (64, 32), (32, 64));
+    ucases2!(v, "wrapping_mul/saturating_mul/CheckedMul", wrapping_checked_saturating;
+        (1, 1), (2, 2), (3, 3), (4, 4), (6, 6), (8, 8), (12, 12), (16, 16), (32, 32), (64, 64),
+        (1, 2), (2, 1), (3, 1), (1, 4), (4, 2), (2, 4), (4, 3), (4, 16), (16, 4), (16, 32), (32, 16));
+    ucases!(v, "WrappingMul::wrapping_mul", wrapping_mul_trait; 1, 2, 3, 4, 16, 32);
+    case!(v, "U64::widening_mul/WideningMul U64*U64->U128", widening::<1, 1, 2>);
+    case!(v, "U128::widening_mul/WideningMul U128*U128->U256", widening::<2, 2, 4>);
+    case!(v, "U192::widening_mul/WideningMul U192*U192->U384", widening::<3, 3, 6>);
+    case!(v, "U256::widening_mul/WideningMul U256*U256->U512", widening::<4, 4, 8>);
+    case!(v, "U384::widening_mul/WideningMul U384*U384->U768", widening::<6, 6, 12>);
+    case!(v, "U512::widening_mul/WideningMul U512*U512->U1024", widening::<8, 8, 16>);
+    case!(v, "U1024::widening_mul/WideningMul U1024*U1024->U2048", widening::<16, 16, 32>);
+    case!(v, "U2048::widening_mul/WideningMul U2048*U2048->U4096", widening::<32, 32, 64>);
+    case!(v, "U4096::widening_mul/WideningMul U4096*U4096->U8192", widening::<64, 64, 128>);
+    case!(v, "U8192::widening_mul/WideningMul U8192*U8192->U16384", widening::<128, 128, 256>);
+    case!(v, "U64::widening_mul/WideningMul U64*U128->U192", widening::<1, 2, 3>);
+    case!(v, "U128::widening_mul/WideningMul U128*U64->U192", widening::<2, 1, 3>);
+    case!(v, "U64::widening_mul/WideningMul U64*U192->U256", widening::<1, 3, 4>);
+    case!(v, "U192::widening_mul/WideningMul U192*U64->U256", widening::<3, 1, 4>);
+    case!(v, "U256::widening_mul/WideningMul U256*U64->U320", widening::<4, 1, 5>);
+    case!(v, "U128::widening_mul/WideningMul U128*U192->U320", widening::<2, 3, 5>);
+    case!(v, "U256::widening_mul/WideningMul U256*U128->U384", widening::<4, 2, 6>);
+    case!(v, "U192::widening_mul/WideningMul U192*U320->U512", widening::<3, 5, 8>);
+    case!(v, "U768::widening_mul/WideningMul U768*U256->U1024", widening::<12, 4, 16>);
+    case!(v, "U256::widening_mul/WideningMul U256*U768->U1024", widening::<4, 12, 16>);
+    case!(v, "U960::widening_mul/WideningMul U960*U64->U1024", widening::<15, 1, 16>);
+    case!(v, "U64::widening_mul/WideningMul U64*U960->U1024", widening::<1, 15, 16>);
+    ucases2!(v, "operators * *=", operators;
+        (1, 1), (2, 2), (3, 3), (4, 4), (16, 16), (32, 32), (1, 2), (2, 1), (4, 1), (1, 4), (4, 3), (3, 4), (16, 4), (4, 16));
+    ucases!(v, "Wrapping<Uint> * *=", wrapping_wrapper; 1, 2, 3, 4, 16, 32);
+    ucases!(v, "Checked<Uint> * *= (sticky none)", checked_wrapper; 1, 2, 3, 4, 16, 32);
+    ucases!(v, "square_wide/wrapping_square/checked_square/saturating_square", square_forms; 1, 2, 3, 4, 5, 6, 7, 8, 9, 10, 11, 12, 16, 32, 64, 128);
+    case!(v, "U64::square/widening_square ->U128", square_concat::<1, 2>);
+    case!(v, "U128::square/widening_square ->U256", square_concat::<2, 4>);
+    case!(v, "U192::square/widening_square ->U384", square_concat::<3, 6>);
+    case!(v, "U256::square/widening_square ->U512", square_concat::<4, 8>);
+    case!(v, "U512::square/widening_square ->U1024", square_concat::<8, 16>);
+    case!(v, "U1024::square/widening_square ->U2048", square_concat::<16, 32>);
+    case!(v, "U2048::square/widening_square ->U4096", square_concat::<32, 64>);
+    case!(v, "U4096::square/widening_square ->U8192", square_concat::<64, 128>);
+    case!(v, "U8192::square/widening_square ->U16384", square_concat::<128, 256>);
+    ucases!(v, "square_wide == split_mul(self, self)", square_is_self_mul; 1, 2, 3, 4, 16, 32, 64, 128);
+    case!(v, "BoxedUint::mul/wrapping_mul/CheckedMul/WideningMul/WrappingMul/operators/Wrapping 1..=4 x 1..=4 limbs", boxed_small);
+    case!(v, "BoxedUint::square 1..=6 limbs", boxed_square_small);
+    case!(v, "BoxedUint::mul/wrapping_mul/CheckedMul/operators around the Karatsuba thresholds (5..140 limbs, unequal)", boxed_large);
+    case!(v, "BoxedUint::mul/wrapping_mul/CheckedMul/operators lhs odd >= 33 limbs and rhs longer (trailing limbs on both sides)", boxed_large_both_trailing);
+    case!(v, "BoxedUint::square around the Karatsuba thresholds (7..140 limbs)", boxed_square_large);
+    case!(v, "Limb::mac", limb_mac);
+    case!(v, "Limb::wrapping_mul/saturating_mul/CheckedMul/WrappingMul/operators/Wrapping/Checked", limb_forms);
+    v
 }
